@@ -13,6 +13,7 @@ import (
 	"math"
 	"math/big"
 	"os"
+	"strings"
 
 	"github.com/vechain/thor/v2/block"
 	"github.com/vechain/thor/v2/consensus/upgrade/galactica"
@@ -93,6 +94,8 @@ func genBF(r *hx.Rand) *BFCase {
 		c.GasLimit = uint64(r.Intn(8)) // below MinGasLimit: target may be 0
 	case 4:
 		c.GasLimit = r.Uint64()
+	case 5:
+		c.GasLimit = 10_000_000 + uint64(r.Intn(100)) + 9765*uint64(r.Intn(50)) // limits after a few 1/1024 votes
 	default:
 		c.GasLimit = thor.MinGasLimit + r.Uint64()%100_000_000
 	}
@@ -107,7 +110,7 @@ func genBF(r *hx.Rand) *BFCase {
 	case 3:
 		c.GasUsed = target + 1
 	case 4:
-		c.GasUsed = target - 1
+		c.GasUsed = target - 1 - uint64(r.Intn(80))
 	case 5:
 		c.GasUsed = c.GasLimit + uint64(r.Intn(1000)) // invalid header
 	default:
@@ -159,6 +162,16 @@ func bfProperty(c *BFCase) string {
 	if diff.Cmp(new(big.Int).Div(pb, big.NewInt(8))) > 0 {
 		return fmt.Sprintf("base fee moved by %s, more than 1/8 of %s", diff, pb)
 	}
+	// direction of the move against the gas target = 75% of the gas limit (floor), restated here independently
+	target := c.GasLimit * 75 / 100 // no wrap inside the domain
+	switch {
+	case c.GasUsed == target && fee.Cmp(pb) != 0:
+		return fmt.Sprintf("parent exactly at its gas target (limit %d, used %d) but the base fee moved from %s to %s", c.GasLimit, c.GasUsed, pb, fee)
+	case c.GasUsed < target && fee.Cmp(pb) > 0:
+		return fmt.Sprintf("parent below its gas target (limit %d, used %d < %d) but the base fee rose from %s to %s", c.GasLimit, c.GasUsed, target, pb, fee)
+	case c.GasUsed > target && fee.Cmp(pb) <= 0:
+		return fmt.Sprintf("parent above its gas target (limit %d, used %d > %d) but the base fee did not rise (%s -> %s)", c.GasLimit, c.GasUsed, target, pb, fee)
+	}
 	return ""
 }
 
@@ -191,7 +204,11 @@ func runBF(ctx *hx.Ctx, cases []*BFCase) {
 			ctx.Cov.Count("basefee-gaslimit-beyond-nowrap-bound")
 		}
 		if f := bfProperty(c); f != "" {
-			ctx.Violation("basefee:bounds", f, replayDoc{BaseFee: c}, true)
+			class := "basefee:bounds"
+			if strings.HasPrefix(f, "parent ") {
+				class = "basefee:direction"
+			}
+			ctx.Violation(class, f, replayDoc{BaseFee: c}, true)
 			continue
 		}
 		res, _ := calc(c, c.Noise)
@@ -226,7 +243,19 @@ func main() {
 		ctx.Finish("replay", nil)
 	}
 	if dir := os.Getenv("VERIF_CORPUS"); dir != "" {
-		txsim.RunCases(ctx, "C08", txsim.LoadCorpus(dir))
+		txs, chains := txsim.LoadCorpusAll(dir)
+		txsim.RunCases(ctx, "C08", txs)
+		txsim.RunChains(ctx, "C08", chains)
+		for _, f := range txsim.CorpusFiles(dir) {
+			if b, err := os.ReadFile(f); err == nil {
+				var doc struct {
+					Replay replayDoc `json:"replay"`
+				}
+				if json.Unmarshal(b, &doc) == nil && doc.Replay.BaseFee != nil {
+					runBF(ctx, []*BFCase{doc.Replay.BaseFee})
+				}
+			}
+		}
 	}
 	r := hx.NewRand(ctx.Seed)
 	rb := r.Fork(8)
